@@ -6,6 +6,8 @@ package pipe
 import (
 	"bytes"
 	"fmt"
+	"os"
+	"runtime/debug"
 	"sort"
 	"strconv"
 	"strings"
@@ -513,6 +515,9 @@ func Run(sc *Scenario) *Result {
 		defer evMu.Unlock()
 		if res.GoPanic == "" {
 			res.GoPanic = fmt.Sprint(v)
+			if os.Getenv("PIPE_STACK") != "" {
+				res.GoPanic += "\n" + string(debug.Stack())
+			}
 		}
 	}
 	defer func() { sarama.PanicHandler = nil }()
